@@ -5,8 +5,25 @@
 (***************************************************************************)
 EXTENDS Integers, Sequences, TLC, F64, RealFns
 
+BRFma(fa, fb, fc) == BRAdd(BRMul(fa, fb), fc)
 B == INSTANCE PolyAlgebra WITH Zero <- BRZero, One <- BROne, Add <- BRAdd, Sub <- BRSub, Mul <- BRMul,
-                               Div <- BRDiv, Neg <- BRNeg, Abs <- BRAbs, Leq <- BRLe, FromInt <- BR
+                               Div <- BRDiv, Neg <- BRNeg, Abs <- BRAbs, Leq <- BRLe, FromInt <- BR, Fma <- BRFma
+
+\* The IEEE instance of the same algebra: numbers are f64 bit patterns, every operation rounds once, the fused
+\* multiply-add rounds once.  FP!Estrin / FP!HornerFma are then bit-exact models of Poly0..8::evaluate and
+\* PolyN::evaluate as written in src/poly.rs -- the implementation-shaped side of C01 (a mismatch is DRIFT:
+\* the contract is the scheme-independent bound).
+FPAdd(a, b) == Fl(BRAdd(Val(a), Val(b)))
+FPSub(a, b) == Fl(BRSub(Val(a), Val(b)))
+FPMul(a, b) == Fl(BRMul(Val(a), Val(b)))
+FPDiv(a, b) == Fl(BRDiv(Val(a), Val(b)))
+FPNeg(a) == Fl(BRNeg(Val(a)))
+FPAbs(a) == Fl(BRAbs(Val(a)))
+FPLeq(a, b) == BRLe(Val(a), Val(b))
+FPInt(i) == Fl(BR(i))
+FPFma(a, b, c) == Fl(BRAdd(BRMul(Val(a), Val(b)), Val(c)))
+FP == INSTANCE PolyAlgebra WITH Zero <- PosZero, One <- OneBits, Add <- FPAdd, Sub <- FPSub, Mul <- FPMul, Div <- FPDiv,
+                                Neg <- FPNeg, Abs <- FPAbs, Leq <- FPLeq, FromInt <- FPInt, Fma <- FPFma
 
 Vals(cb) == [i \in 1..Len(cb) |-> Val(cb[i])]
 AllFinite(cb) == \A i \in 1..Len(cb) : IsFinite(cb[i])
